@@ -8,7 +8,7 @@
    indices of any magnitude. *)
 From Coq Require Import List ZArith Bool.
 Import ListNotations.
-From LC Require Import Base BaseFacts Tree Fp Lookup Api ApiStep TreeFacts ApiFacts Inv InvFacts LookupFacts
+From LC Require Import Base BaseFacts Tree Fp Lookup Api ApiStep TreeFacts ApiFacts Inv InvFacts LookupFacts EmptyComp
   ConvertFacts.
 Local Open Scope Z_scope.
 
@@ -80,6 +80,15 @@ Theorem C06_below_scalar : forall f k rel s c rest,
   walk (S f) k rel (s :: comp_bytes c ++ rest) = None \/ (comp_bytes c = [] /\ rest = []).
 Proof. exact walk_below_scalar. Qed.
 Print Assumptions C06_below_scalar.
+
+(* an empty component - two separators in a row, at the start or after any correctly spelled prefix - names
+   nothing: no member has the empty name *)
+Theorem C06_empty_component : forall b sp ip k s1 s2 rest,
+  wf b = true -> Spells b true sp ip -> get_at ip b = Some k ->
+  is_sep s1 = true -> is_sep s2 = true ->
+  lookup b (render sp ++ s1 :: s2 :: rest) = None.
+Proof. exact lookup_empty_component. Qed.
+Print Assumptions C06_empty_component.
 
 (* a typed lookup that fails leaves the caller's output variable untouched: the failing result
    carries no output, for a path that resolves to nothing and for a type mismatch alike *)
